@@ -103,6 +103,8 @@ package netpoll
 //@   ensures wfs(b) && rpos(b) == old(rpos(b)) && b.read.ord >= old(b.read.ord)
 //@   ensures readN <= 0 ==> single && b.read == old(b.read)
 //@   ensures readN > 0 && single ==> nlen(b.read) >= readN
+//@   note Slice's multi-node path hands the whole first node to the view: it relies on 'not single' meaning that node is too short
+//@   ensures readN > 0 && !single ==> nlen(b.read) < readN
 //@   modifies b.read
 //@   loop 1 invariant inb(b, b.read) && b.read.ord <= b.flush.ord && b.read.ord >= old(b.read.ord)
 //@   loop 1 invariant rpos(b) == old(rpos(b)) && l == nlen(b.read)
@@ -148,7 +150,7 @@ package netpoll
 //@   requires 0 <= node.off && 0 <= n && node.off + n <= len(node.buf)
 //@   requires node.origin != nil ==> allocated(node.origin) && node.origin != node && node.origin.origin == nil && node.origin.refer >= 1 && node.origin.refer < 2147483647
 //@   requires node.origin == nil ==> node.refer >= 1 && node.refer < 2147483647
-//@   ensures fresh(p) && p != nil && p.refer == 1 && p.off == 0 && p.next == nil && p.mode == 1
+//@   ensures fresh(p) && p != nil && p.refer == 1 && p.off == 0 && p.next == nil && p.mode == 1 && p.own == nil
 //@   ensures len(p.buf) == n && p.buf#arr == node.buf#arr && p.buf#base == node.buf#base + old(node.off) && node.off == old(node.off) + n
 //@   ensures old(node.origin) != nil ==> p.origin == old(node.origin) && node.origin.refer == old(node.origin.refer) + 1 && node.origin.kids == old(node.origin.kids) + 1 && node.refer == old(node.refer)
 //@   ensures old(node.origin) == nil ==> p.origin == node && node.refer == old(node.refer) + 1 && node.kids == old(node.kids) + 1
@@ -458,7 +460,8 @@ package netpoll
 //@   property C01
 //@   ensures fresh(result) && wf(result) && result.length == 0 && result.mallocSize == 0 && result.head == result.read && samepool()
 //@   ensures len(result.caches) == 0 && result.cachePeek == nil && nopend(result)
-//@   modifies pool, blknode, cacheown, peekown, linkBufferNode.own, linkBufferNode.ord, linkBufferNode.sp
+//@   note the ghost fields of the new node are written, nothing of any node that existed before (writes to fresh objects need no modifies entry)
+//@   modifies pool, blknode, cacheown, peekown
 //@   ghost after call newLinkBufferNode#1: result.own = buf; result.ord = 0; result.sp = 0
 
 // ---- the vectors taken for sending ----
@@ -568,3 +571,28 @@ package netpoll
 //@   loop 3 invariant forall a int :: a > 0 && wasalloc(a) ==> blknode[a] == old(blknode[a]) && cacheown[a] == old(cacheown[a]) && cacheidx[a] == old(cacheidx[a]) && cachesof[a] == old(cachesof[a]) && peekown[a] == old(peekown[a])
 //@   loop 3 invariant forall a int :: pool[a] != old(pool[a]) ==> old(blknode[a]) != nil && old(blknode[a].own) == b
 //@   loop 3 invariant forall m *linkBufferNode :: inb(b, m) ==> old(m.own) == b
+
+// Slice (parent side): the n consumed bytes are handed to read-only views that each hold one reference on the block they look into
+// (Refer), the exposed nodes are flagged, the parent's counters move by exactly n, and the implicit Release recycles only consumed nodes.
+// The view buffer itself (p) is not described here beyond being new: operations on Slice readers are not under contract.
+//@ ghost global slViews int
+//@ func (*UnsafeLinkBuffer).Slice
+//@   property C02 C03
+//@   requires wf(b)
+//@   ensures wfs(b) && others(b)
+//@   ensures old(n <= 0) ==> err == nil && r != nil && unchanged(UnsafeLinkBuffer.length, UnsafeLinkBuffer.read, linkBufferNode.off, linkBufferNode.refer)
+//@   ensures old(n > 0 && b.length < n) ==> err != nil && unchanged(UnsafeLinkBuffer.length, UnsafeLinkBuffer.read, linkBufferNode.off, linkBufferNode.refer, linkBufferNode.mode)
+//@   ensures old(n > 0 && b.length >= n) ==> err == nil && r != nil && rpos(b) == old(rpos(b)) + n && b.length == old(b.length) - n && wfcnt(b, 0) && slViews >= 1
+//@   ensures forall m *linkBufferNode {m.kids} :: wasalloc(m) && m.kids > old(m.kids) ==> m.mode & 2 != 0
+//@   modifies b.length, b.read, b.head, b.caches, b.cachePeek, linkBufferNode.off, linkBufferNode.mode, linkBufferNode.refer, linkBufferNode.kids, linkBufferNode.buf, linkBufferNode.origin, linkBufferNode.next, linkBufferNode.own, linkBufferNode.ord, linkBufferNode.sp, UnsafeLinkBuffer.flush, UnsafeLinkBuffer.write, UnsafeLinkBuffer.head, UnsafeLinkBuffer.read, UnsafeLinkBuffer.length, mem:[]byte, pool, blknode, cacheown, cacheidx, cachesof, peekown, slViews
+//@   note fewer than 2^31 views ever look into one block (the reference count is an int32)
+//@   ghost at entry: slViews = 0
+//@   ghost before call (*linkBufferNode).Refer#1: assume b.read.refer < 2147483000; slViews = slViews + 1
+//@   ghost before call (*linkBufferNode).Refer#2: assume b.read.refer < 2147483000; slViews = slViews + 1
+//@   ghost before call (*linkBufferNode).Refer#3: assume b.read.refer < 2147483000; slViews = slViews + 1
+//@   ghost before call (*linkBufferNode).Refer#4: assume b.read.refer < 2147483000; slViews = slViews + 1
+//@   loop 1 invariant wfs(b) && p != nil && !wasalloc(p) && p.flush != nil && !wasalloc(p.flush) && p.flush.own == nil
+//@   loop 1 invariant b.read.ord >= old(b.read.ord) && rpos(b) + ack == old(rpos(b)) + n && fpos(b) - rpos(b) >= ack && ack >= 0 && slViews >= 1
+//@   loop 1 invariant b.length == old(b.length) - n && b.mallocSize == old(b.mallocSize) && fpos(b) == old(fpos(b)) && mpos(b) == old(mpos(b))
+//@   loop 1 invariant others(b)
+//@   loop 1 invariant forall m *linkBufferNode {m.kids} :: wasalloc(m) && m.kids > old(m.kids) ==> m.mode & 2 != 0
